@@ -280,6 +280,7 @@ func (w *World) Build(c Config) *WF {
 	}
 	if c.CustomDelete {
 		bopts = append(bopts, workflow.WithCustomDelete(func(o *Obj) error {
+			w.detCtx = detCtx{kind: "delete", objN: o.N}
 			out := w.nextOutcome()
 			w.ob("fn:delete(o%d)->%s", o.N, out)
 			w.Mon.onInvoke(Invocation{Kind: "delete", Outcome: out})
@@ -326,6 +327,7 @@ func (w *World) runOutcome(ctx context.Context, kind string, status int, r *work
 	first := true
 	var pending *Invocation
 	for {
+		w.detCtx = detCtx{kind: kind, status: status, objN: r.Object.N, run: w.RunOrd(r.RunID)}
 		out := w.nextOutcome()
 		if first {
 			w.ob("fn:%s(r%d,rs%d,st%d,v%d,o%d)->%s", kind, w.RunOrd(r.RunID), int(r.RunState), int(r.Status), r.Meta.Version, r.Object.N, out)
@@ -401,6 +403,7 @@ func (w *World) timeoutFn(status int) workflow.TimeoutFunc[Obj, St] {
 
 func (w *World) timerFn(status int) workflow.TimerFunc[Obj, St] {
 	return func(ctx context.Context, r *workflow.Run[Obj, St], now time.Time) (time.Time, error) {
+		w.detCtx = detCtx{kind: "timer", status: status, objN: r.Object.N, run: w.RunOrd(r.RunID)}
 		out := w.nextOutcome()
 		w.ob("fn:timer(r%d,rs%d,st%d,v%d,o%d)->%s", w.RunOrd(r.RunID), int(r.RunState), int(r.Status), r.Meta.Version, r.Object.N, out)
 		w.Mon.onInvoke(Invocation{Kind: "timer", Proc: w.S.Current(), Run: w.RunOrd(r.RunID), Status: status, SeenObj: r.Object.N, SeenRS: int(r.RunState),
@@ -424,6 +427,7 @@ func (w *World) timerFn(status int) workflow.TimerFunc[Obj, St] {
 
 func (w *World) hookFn(rs int) workflow.RunStateChangeHookFunc[Obj, St] {
 	return func(ctx context.Context, r *workflow.TypedRecord[Obj, St]) error {
+		w.detCtx = detCtx{kind: "hook", status: rs, objN: r.Object.N, run: w.RunOrd(r.RunID)}
 		out := w.nextOutcome()
 		w.ob("fn:hook%d(r%d,rs%d,st%d,v%d,o%d)->%s", rs, w.RunOrd(r.RunID), int(r.RunState), int(r.Status), r.Meta.Version, r.Object.N, out)
 		w.Mon.onInvoke(Invocation{Kind: "hook", Proc: w.S.Current(), Run: w.RunOrd(r.RunID), Status: rs, SeenObj: r.Object.N, SeenRS: int(r.RunState),
